@@ -38,11 +38,12 @@ A_HASH = 'A-hash: hashing is a deterministic function of the key (uninterpreted 
 A_CLONE = 'A-clone: Clone::clone of the cache key/value types returns an equal value (the builders instantiate them with Copy pointer types)'
 A_F64 = 'A-f64: the floating-point grow test of the Lru is replaced by an arbitrary function of (num_filled, cap) that can answer true only above half full; under C16 this fact is PROVED for the real condition text by the Kani harness k_lru_grow_test_only_above_half (all n, all cap < 32)'
 A_MODEL_ITER = 'A-model-iter: in unit robdd `PartialModel::assignment_iter()` (iterator-adapter chain over two BitSets) is a trusted stub yielding the sequence m.lits(); Literal is the two-field stub of A-lit'
+A_CNF_STUB = 'A-cnf-stub / A-iter-std: in the builder units `Cnf` is an opaque stub exposing its clause list; in compile_cnf the expression `cnf.clauses().iter().any(|x| x.is_empty())` and the sorting prologue (`to_vec` + `sort_by` with a comparator built from max_by closures) are replaced by stubs with the std semantics -- the sort stub returns SOME rearrangement of the clauses (two mutually inverse index maps), so the comparator heuristic is outside the proof and nothing is assumed about the order it produces; Literal is the two-field stub of A-lit'
 A_KANI = 'A-kani: soundness of Kani 0.68 / CBMC 6.11; kani::any() ranges over every bit pattern of the type'
 
 prop('C01',
      units=['ite', 'ptr', 'order', 'lru', 'cache', 'bottomup', 'builder', 'robdd'],
-     assumptions=[A_VERUS, A_EXTRACT, A_PTREQ, A_CELL, A_MODEL_ITER, A_TERM, A_CAP, A_HASH, A_CLONE, A_F64],
+     assumptions=[A_VERUS, A_EXTRACT, A_PTREQ, A_CELL, A_MODEL_ITER, A_CNF_STUB, A_TERM, A_CAP, A_HASH, A_CLONE, A_F64],
      replay='bdd',
      explanation='every public BDD operation carries the postcondition  forall env. ptr_sem(result, env) == <definition>(ptr_sem(args..)), '
                  'with ptr_sem the structural denotation of a diagram; proved function by function against callee contracts, for an arbitrary '
@@ -148,12 +149,12 @@ prop('C14',
 
 prop('C05',
      units=['bottomup', 'builder', 'ite', 'ptr', 'order', 'cache', 'lru', 'robdd'],
-     assumptions=[A_VERUS, A_EXTRACT, A_PTREQ, A_CELL, A_MODEL_ITER, A_TERM, A_CAP, A_HASH, A_CLONE, A_F64],
+     assumptions=[A_VERUS, A_EXTRACT, A_PTREQ, A_CELL, A_MODEL_ITER, A_CNF_STUB, A_TERM, A_CAP, A_HASH, A_CLONE, A_F64],
      replay='compile',
      explanation='compile_logical_expr(e) and compile_plan(p) (trait default methods, generic in the pointer type) denote expr_sem(e) / plan_sem(p), the structural meaning of the enum; '
                  'collapse_clauses denotes the conjunction of its slice and is None exactly for the empty slice; for the BDD builder the operations they call are the ones proved under C01 (same units), for any variable order',
      not_covered=[
-         'compile_cnf: clause-sorting prologue (sort_by with closures over max_by), the per-clause loop and the empty-clause test use iterator adapters Verus rejects; its last step collapse_clauses is proved [bounded check `compile` only]',
+         'compile_cnf (BDD builder) is under contract -- empty list: true; an empty clause: false; otherwise the diagram of the conjunction of the clauses, by invariants over the real per-clause and per-literal loops and the proved collapse_clauses -- with four declared rewrites: the empty-clause test and the clause-sorting prologue are the stubs of A-cnf-stub (the comparator heuristic is NOT verified; the proof holds for any rearrangement of the clauses), and two loop headers are written with `.iter()` [+ bounded check `compile`]',
          'compile_cnf_with_assignments (BinaryHeap, count_nodes on scratch) [bounded check `compile` only: equal pointer to compile-then-condition_model]', 'BottomUpPlan::from_dtree (iter().skip(1).fold) [bounded check `compile` only]',
          'everything SDD (C03 is not applicable): compile_* under the SDD builder and any vtree [bounded check `compile` only: all vtrees over 3 variables, four over 4]',
      ])
@@ -161,7 +162,7 @@ prop('C05',
 prop('C02',
      units=['ptr', 'bottomup', 'builder', 'robdd', 'table', 'canonthm'],
      kani=[{'name': 'k_next_power_of_two_ge'}],
-     assumptions=[A_VERUS, A_EXTRACT, A_PTREQ, A_CELL, A_MODEL_ITER, A_TERM, A_CLONE,
+     assumptions=[A_VERUS, A_EXTRACT, A_PTREQ, A_CELL, A_MODEL_ITER, A_CNF_STUB, A_TERM, A_CLONE,
                   'A-bump: bumpalo::Bump::alloc returns a reference to a value equal to its argument that is never moved, freed or mutated while the arena lives',
                   'A-psl: a probe sequence is shorter than min(255, cap) (u8 probe counter, no wrap around the whole table); assumed exactly where the counters are incremented',
                   'A-cap: node count < usize::MAX and capacity < 2^62; usize::next_power_of_two returns a value >= its argument',
